@@ -533,6 +533,23 @@ def run(ctx):
                             build_fail.setdefault((lg, cause_of(err)), (c["file"], a_s, err))
                         oracle(ctx, f, spa, a_s, which, mode == "full")
                         both.append((which, mode, sections, inp))
+                        if which == "sync" and mode == "full":
+                            # the blocking client calls facade._on_connected again after every reconnect: the SAME facade object
+                            # scans again - the inventory must be the one of a single scan (each device once, keys unique, lookup)
+                            try:
+                                f._on_connected(spa)
+                                again = dump_facade(f, spa, False, True)
+                            except Exception as e:  # noqa
+                                viol(ctx, f"rescan-raises-sync:{lg}:{type(e).__name__}", dict(inp, rescan=True), "a reconnect re-scans", f"{type(e).__name__}: {e}")
+                                continue
+                            ctx.count("evaluations")
+                            ctx.hist("facades", "sync:rescan")
+                            diff = [k for k in sections if again.get(k) != sections[k]]
+                            if diff:
+                                viol(ctx, f"rescan-differs-sync:{diff[0]}:{lg}", dict(inp, rescan=True),
+                                     f"{diff[0]} after a reconnect as after the first connect: {sections[diff[0]][:200]}", again.get(diff[0], "?")[:300])
+                            else:
+                                oracle(ctx, f, spa, a_s + "+reconnect", which, True)
                         if sections["aud"]:
                             nontrivial.add((tuple(l for l in sorted({x.split(":")[0] for x in sections["aud"].split(",")})), pname, which))
                         ctx.hist("user_devices_listed", len(sections["aud"].split(",")) if sections["aud"] else 0)
@@ -642,5 +659,16 @@ def replay(inp):
             return True, f"{type(e).__name__}: {e}"
         c = _Collect()
         oracle(c, f, spa, inp["assignment"], inp["facade"], mode == "full")
+        if inp.get("rescan") and not c.v:
+            first = dump_facade(f, spa, False, True)
+            try:
+                f._on_connected(spa)
+                again = dump_facade(f, spa, False, True)
+            except Exception as e:  # noqa
+                return True, f"{type(e).__name__}: {e}"
+            diff = {k: [first[k][:200], again.get(k, "?")[:300]] for k in first if again.get(k) != first[k]}
+            if diff:
+                return True, diff
+            oracle(c, f, spa, inp["assignment"] + "+reconnect", inp["facade"], True)
         return bool(c.v), c.v[:3] or dump_facade(f, spa, inp["facade"] == "async", mode == "full")
     return True, "unknown replay kind"
